@@ -43,6 +43,7 @@ package types
 //@   ensures[bridges-order] (result1 == nil && result0 != c) ==> forall(k, 0, old(len(c.Bridges)), keepBlk(old(c.Bridges[k]).BlockNum, fromBlock, toBlock) ==> cntB(old(seq(c.Bridges)), fromBlock, toBlock, k) < len(result0.Bridges) && result0.Bridges[cntB(old(seq(c.Bridges)), fromBlock, toBlock, k)] == old(c.Bridges[k]))
 //@   ensures[claims-count] (result1 == nil && result0 != c) ==> len(result0.Claims) == cntC(old(seq(c.Claims)), fromBlock, toBlock, old(len(c.Claims)))
 //@   ensures[claims-order] (result1 == nil && result0 != c) ==> forall(k, 0, old(len(c.Claims)), keepBlk(old(c.Claims[k]).BlockNum, fromBlock, toBlock) ==> cntC(old(seq(c.Claims)), fromBlock, toBlock, k) < len(result0.Claims) && result0.Claims[cntC(old(seq(c.Claims)), fromBlock, toBlock, k)] == old(c.Claims[k]))
+//@   ensures[fresh] (result1 == nil && result0 != c) ==> fresh(result0)
 //@   ensures[input-unchanged] c.FromBlock == old(c.FromBlock) && c.ToBlock == old(c.ToBlock) && c.Bridges == old(c.Bridges) && c.Claims == old(c.Claims)
 //@   loop 0 invariant newCert != c && newCert != nil && fresh(newCert)
 //@   loop 0 invariant 0 <= rangeindex + 1 && rangeindex + 1 <= len(c.Bridges)
